@@ -82,6 +82,8 @@ def monitors(ops, impl):
     probs = {"C09": [], "C10": [], "C11": []}
     watch = [int(x) for x in ops[0].split()[2:]]
     outstanding, closed, awaiting = set(), False, False
+    if ops[0].startswith("newstart") and watch:
+        outstanding.add(watch[0])      # delivered during start-up, right after it was registered
     answers = [l for l in impl if not l.startswith("exit")]
     for op, ans in zip(ops, answers + ["(no answer)"] * len(ops)):
         w = op.split()
@@ -133,6 +135,9 @@ def monitors(ops, impl):
             between = ops[prev_poll + 1:i]
             if any(b == "close" or (b.startswith("raise") and int(b.split()[1]) in watch) for b in between) and answers[i] == "woken false":
                 probs["C11"].append("poll_next answered Pending, then `%s` happened, and the task's waker was never called" % between[0])
+                if any(b.startswith("raise") and int(b.split()[1]) in watch for b in between):
+                    # the parked consumer of an open instance never learns of the delivery: a lost wake-up
+                    probs["C09"].append("poll_next answered Pending, then `%s` delivered a watched signal, and the task's waker was never called: the parked consumer does not obtain it" % next(b for b in between if b.startswith("raise")))
     return probs
 
 
@@ -152,12 +157,42 @@ def stage(pid, kinds, tier, rng):
             for b in (1, 16):
                 blocks.append(["new %s 10 12" % k, "poll", "raise 10 %d" % b, "woken", "poll", "poll", "raise 12", "woken", "poll", "poll", "close", "woken", "poll"])
                 blocks.append(["new %s 10" % k, "raise 10 %d" % b, "poll", "poll", "poll", "raise 10", "woken", "poll", "poll"])
+    # a signal that lands while the constructor is still registering the rest of its list (and is noticed by the
+    # reactor thread meanwhile) must be reported, and must not cost a later signal its wake-up
+    if "signals" in kinds:
+        blocks.append(["newstart signals 10 12", "wait", "raise 12", "wait", "close", "wait"])
+        blocks.append(["newstart signals 10 12", "next", "raise 12", "next"])
+    if "mio" in kinds:
+        blocks.append(["newstart mio 10 12", "mpoll", "mpoll", "raise 12", "mpoll"])
+    for k in ("tokio", "asyncstd"):
+        if k in kinds:
+            blocks.append(["newstart %s 10 12" % k, "poll", "poll", "raise 12", "woken", "poll", "poll", "close", "woken", "poll"])
+            blocks.append(["newstart %s 10" % k, "poll", "poll", "raise 10", "woken", "poll"])
     chunks = [blocks[i::core.NPROC] for i in range(core.NPROC)]
     chunks = [c for c in chunks if c]
     res = core.pmap(run_blocks, chunks)
     failures, dist = [], {}
+
+    def bad(b, i, m):
+        return bool(monitors(b, i).get(pid, [])) or [x for x in m if not x.startswith("woken")] != [x for x in i if not x.startswith("woken")]
+
     for ch, (ib, mb) in zip(chunks, res):
         for b, i, m in zip(ch, ib, mb):
+            if bad(b, i, m):
+                # these probes wait for other threads (a reactor, a helper) with wall-clock time-outs: a block that
+                # fails is run again, alone and five times as patient, and is believed only if it fails again
+                import os
+                os.environ["SIGHOOK_PATIENCE"] = "5"
+                try:
+                    again = [run_blocks([b]) for _ in range(2)]
+                finally:
+                    os.environ.pop("SIGHOOK_PATIENCE", None)
+                fails = [(x[0][0], x[1][0]) for x in again if bad(b, x[0][0], x[1][0])]
+                if not fails:
+                    dist["frontend-blocks-passing-on-patient-rerun"] = dist.get("frontend-blocks-passing-on-patient-rerun", 0) + 1
+                    i, m = again[0][0][0], again[0][1][0]
+                else:
+                    i, m = fails[0]
             kind = b[0].split()[1]
             dist["frontend:" + kind] = dist.get("frontend:" + kind, 0) + 1
             for a in i:
